@@ -24,6 +24,9 @@ fn run_check(id: &str, tier: Tier) -> Option<Report> {
         "C04" => checks::c04::run(tier),
         "C06" => checks::c06::run(tier),
         "C07" => checks::c07::run(tier),
+        "C08" => checks::c08::run(tier),
+        "C09" => checks::c09::run(tier),
+        "C17" => checks::c17::run(tier),
         _ => return None,
     })
 }
@@ -35,6 +38,9 @@ fn replay_case(id: &str, case: &Value) -> Option<Vec<Failure>> {
         "C04" => checks::c04::replay(case),
         "C06" => checks::c06::replay(case),
         "C07" => checks::c07::replay(case),
+        "C08" => checks::c08::replay(case),
+        "C09" => checks::c09::replay(case),
+        "C17" => checks::c17::replay(case),
         _ => return None,
     })
 }
